@@ -64,7 +64,9 @@ func GetAggregatorContext(ctx sdk.Context, k Keeper) *aggregator.AggregatorConte
 
 func recacheAggregatorContext(ctx sdk.Context, agc *aggregator.AggregatorContext, k Keeper, c *cache.Cache) bool {
 	logger := k.Logger(ctx)
-	from := ctx.BlockHeight() - int64(common.MaxNonce) + 1
+	// the replay window is MaxNonce blocks of the stored params: in a freshly started process
+	// common.MaxNonce still holds its compiled-in default until the first setCommonParams below
+	from := ctx.BlockHeight() - int64(k.GetParams(ctx).MaxNonce) + 1
 	to := ctx.BlockHeight()
 
 	h, ok := k.GetValidatorUpdateBlock(ctx)
